@@ -1048,8 +1048,9 @@ class EnhancedRetransmissionProcessor(Processor):
                 InformationEnhancedControlField.SegmentationAndReassembly.END,
                 InformationEnhancedControlField.SegmentationAndReassembly.UNSEGMENTED,
             ):
-                self.channel.on_sdu(self._in_sdu)
-                self._in_sdu = b''
+                # Reset the reassembly before the SDU is handed over (the sink may raise)
+                sdu, self._in_sdu = self._in_sdu, b''
+                self.channel.on_sdu(sdu)
 
             # If sink doesn't trigger any I-frame, ack this frame.
             if self._req_seq_num != self._last_acked_rx_seq:
